@@ -248,7 +248,7 @@ def run_c30(ctx, replay):
     if replay:
         scheds = [json.load(open(replay))["schedule"]]
     else:
-        vals, steps = ([1, 2, 3, 4], 4) if ctx.thorough() else ([1, 3, 4], 3)
+        vals, steps = ([1, 2, 3, 4], 3) if ctx.thorough() else ([1, 3, 4], 3)
         mc = vlib.tlc(ctx, "AgentTags", tags_consts(vals, steps) + "INIT Init\nNEXT Next\nVIEW View\nINVARIANT C30Waived\nINVARIANT TypeOK\n",
                       workers=8, timeout=3000)
         if mc.violated:
@@ -270,7 +270,7 @@ def run_c30(ctx, replay):
         "states": mc.distinct if mc else 1, "transitions": mc.generated if mc else 1, "exhaustive": bool(mc),
         "model_constants": "3 keys, values {small, small', 249 bytes, 250 bytes} (two 249-byte values are exactly at the 512-byte limit, "
                            "249+250 one byte over); exhaustive: every edit sequence (set any subset of keys to any value, delete any subset) "
-                           "of length <= %d; simulation: length <= %d" % ((4, 6) if ctx.thorough() else (3, 4)),
+                           "of length <= %d over %s values; simulation: 4 values, length <= %d" % ((3, 4, 6) if ctx.thorough() else (3, 3, 4)),
         "traces_validated_against_impl": rep.traces, "trace_lines": rep.lines, "divergences": len(rep.diverged),
         "evaluations": sum(len(s) for s in scheds), "distinct_nontrivial": len(set(json.dumps(s) for s in scheds)),
         "rejected_edits_observed": nrej, "monitor_reports": len(rep.monitors),
@@ -350,7 +350,7 @@ def run_c25(ctx, replay):
         v = json.load(open(replay))
         parts = {v.get("part", "stream"): [v["schedule"]]}
     else:
-        mcs = vlib.tlc(ctx, "IPCStreams", ST_CONST % ("1, 2", 4 if ctx.thorough() else 3) + "INIT Init\nNEXT Next\nINVARIANT C25\n",
+        mcs = vlib.tlc(ctx, "IPCStreams", ST_CONST % (("1, 2, 3", 3) if ctx.thorough() else ("1, 2", 3)) + "INIT Init\nNEXT Next\nINVARIANT C25\n",
                        workers=8, timeout=3000)
         if mcs.violated:
             raise vlib.Inconclusive("IPCStreams violates its own monitor -- spec error, no verdict")
@@ -392,9 +392,9 @@ def run_c25(ctx, replay):
     cov = {
         "states": (mcs.distinct + mcq.distinct) if mcs else 1, "transitions": (mcs.generated + mcq.generated) if mcs else 1,
         "exhaustive": bool(mcs),
-        "model_constants": "IPCStreams: 2 Seqs, 8 filters, 8 event bursts, all step sequences of length <= %d; IPCQuery: 2 nodes, channel "
+        "model_constants": "IPCStreams: %d Seqs, 8 filters, 8 event bursts, all step sequences of length <= 3; IPCQuery: 2 nodes, channel "
                            "capacity 1, all orders of {ack, response, step, expire, stall/unstall, end} of length <= %d; simulation: 3 Seqs, "
-                           "longer sequences, bursts of 600 events with a stalled client" % ((4, 8) if ctx.thorough() else (3, 7)),
+                           "longer sequences, bursts of 600 events with a stalled client" % ((3, 8) if ctx.thorough() else (2, 7)),
         "traces_validated_against_impl": sum(p["traces"] for p in cov_parts.values()),
         "trace_lines": sum(p["lines"] for p in cov_parts.values()),
         "divergences": sum(p["divergences"] for p in cov_parts.values()),
